@@ -874,6 +874,16 @@ func (e *Env) evalCall(n *ast.CallExpr) (SVal, error) {
 				op = "bv_or"
 			}
 			return SVal{App(SInt, op, a.T, b.T), pickType(a, b)}, nil
+		case "unboxptr":
+			// the pointer held by an interface value (for `modifies *unboxptr(v)`)
+			if err := need(1); err != nil {
+				return SVal{}, err
+			}
+			a, err := e.Eval(n.Args[0])
+			if err != nil {
+				return SVal{}, err
+			}
+			return SVal{vc.tc.Unbox(SRef, a.T), types.NewPointer(types.NewStruct(nil, nil))}, nil
 		case "box":
 			// the interface value holding x (dynamic type = x's static type)
 			if err := need(1); err != nil {
